@@ -20,6 +20,20 @@ namespace QV.Model.ClassGraph
 
 abbrev Name := String
 
+/-- A member's type name after the type map's decoration stripping ("decorated type") has been applied;
+    the stripping itself - string surgery on QList<..>, QVector<..>, QStringList, a trailing star, double colons -
+    is done by the driver's reader and tied by the c17 stream; here the result is data.  (named whole segs): a plain
+    or pointer type, whole = the stripped name as it appears in InvalidTypeRef, segs = its parts between double
+    colons. -/
+inductive TypeExpr where
+  | named (whole : Name) (segs : List Name)
+  | list (elem : TypeExpr)
+  | unsupported (whole : Name)
+deriving DecidableEq, Repr
+
+def TypeExpr.int : TypeExpr := .named "int" ["int"]
+def TypeExpr.void : TypeExpr := .named "void" ["void"]
+
 inductive MethodKind where
   | signal | slot | method
 deriving DecidableEq, Repr
@@ -60,6 +74,7 @@ deriving DecidableEq, Repr
 inductive TypeMapError where
   | invalidTypeRef (n : Name)          -- the name resolves to nothing
   | invalidSuperClassType (n : Name)   -- the name resolves to something that is not a class
+  | unsupportedDecoration (n : Name)   -- X<..> other than QList<..> / QVector<..> (member types only)
 deriving DecidableEq, Repr
 
 /-- `Option<Result<T, TypeMapError>>` -/
@@ -245,6 +260,10 @@ structure MethodData where
   name : Name
   kind : MethodKind
   nargs : Nat
+  /-- return type name / argument type names (QV.Model.ClassGraph.Typed; the untyped fragment of this file
+      reads them as void / int) -/
+  ret : TypeExpr := .void
+  args : List TypeExpr := []
 deriving DecidableEq, Repr
 
 def insertByName (m : MethodData) : List MethodData → List MethodData
